@@ -66,11 +66,23 @@ def setupOp (j : Json) : R Json := do
   | .serving p ex => return Json.mkObj [("outcome", "serving"), ("policy", jpolicy p),
       ("usernames", jstrs ex.usernames), ("namespaces", jstrs ex.namespaces), ("runtimeClasses", jstrs ex.runtimeClasses)]
 
+/-- an embedder may hand the controller a configuration it built itself: fields blanked after loading -/
+def blankFields (names : List String) (c : Config.Cfg) : Config.Cfg :=
+  names.foldl (fun c n =>
+    let d := c.defaults
+    { c with defaults := match n with
+      | "enforce" => { d with enforce := [] } | "enforceVersion" => { d with enforceVersion := [] }
+      | "audit" => { d with audit := [] } | "auditVersion" => { d with auditVersion := [] }
+      | "warn" => { d with warn := [] } | "warnVersion" => { d with warnVersion := [] }
+      | _ => d }) c
+
 /-- a controller assembled by hand: which dependencies are set, whether CompleteConfiguration is called, whether the
     configuration is exchanged afterwards; answer: the error class of CompleteConfiguration / ValidateConfiguration -/
 def controllerOp (j : Json) : R Json := do
-  let cfg := Config.load (← docOf (fldD j "doc"))
-  let cfg' := Config.load (← docOf (fldD j "exchange"))
+  let b1 ← arrOf (fun x => x.getStr?) (fldD j "blank")
+  let b2 ← arrOf (fun x => x.getStr?) (fldD j "blankExchange")
+  let cfg := (Config.load (← docOf (fldD j "doc"))).map (blankFields b1)
+  let cfg' := (Config.load (← docOf (fldD j "exchange"))).map (blankFields b2)
   let cfg0 : Option Config.Cfg := if boolD j "noCfg" then none else cfg
   let c0 : Setup.Ctl := Setup.Ctl.mk cfg0 none 0 0 (boolD j "metrics") (boolD j "extractor") (boolD j "evaluator") (boolD j "getter") (boolD j "lister")
   let c1 ← (if boolD j "complete" then
